@@ -126,6 +126,7 @@ func (mq *MessageQueue) buildMessage(size uint64, buildMessageFn func(*Builder))
 		mq.builders = append(mq.builders, NewBuilder(ctx, topic))
 	}
 	builder := mq.builders[len(mq.builders)-1]
+	builder.reserved += size
 	buildMessageFn(builder)
 	return !builder.Empty()
 }
@@ -226,6 +227,11 @@ func (mq *MessageQueue) extractOutgoingMessage() (gsmsg.GraphSyncMessage, intern
 	}
 	mq.buildersLk.Unlock()
 	if builder.Empty() {
+		// nothing was built into it (e.g. the response stream had been closed),
+		// but memory may have been reserved for it
+		if builder.reserved > 0 {
+			_ = mq.allocator.ReleaseBlockMemory(mq.p, builder.reserved)
+		}
 		return gsmsg.GraphSyncMessage{}, internalMetadata{}, errEmptyMessage
 	}
 	return builder.build(mq.eventPublisher)
@@ -293,9 +299,18 @@ func (mq *MessageQueue) scrubResponses(requestIDs []graphsync.RequestID) uint64 
 	newBuilders := make([]*Builder, 0, len(mq.builders))
 	totalFreed := uint64(0)
 	for _, builder := range mq.builders {
-		totalFreed = builder.ScrubResponses(requestIDs)
+		freed := builder.ScrubResponses(requestIDs)
+		if freed > builder.reserved {
+			freed = builder.reserved
+		}
+		builder.reserved -= freed
+		totalFreed += freed
 		if !builder.Empty() {
 			newBuilders = append(newBuilders, builder)
+		} else {
+			// the message is dropped altogether: return whatever it still held
+			totalFreed += builder.reserved
+			builder.reserved = 0
 		}
 	}
 	mq.builders = newBuilders
